@@ -5,6 +5,26 @@ props=[json.loads(l) for l in open('/verif/properties.jsonl')]
 ENV="GOFLAGS=-mod=mod GOPROXY=off GOSUMDB=off GOTOOLCHAIN=local"
 TECH="bounded symbolic execution of the real Go code (go/ssa -> SMT-LIB2 bit-vector encoding written for this task), decided by SMT solvers (z3 5.1.0 / z3 4.8.12 / cvc5), counterexamples replayed natively"
 claimed = {
+ "C05": dict(
+   text="Work-list and request-completion clauses: filterGRPCImplTestCases issues a marked copy exactly for the cases the gRPC peers support (2 permutations with symbolic protocol, HTTP version, codec, compression, TLS, raw request/response, every peer combination); testCaseFilter.apply keeps exactly the accepted names; and (harness shared with C11) every request handed to the client carries the server's actual host (default if empty), port, certificate, client credentials iff the instance uses them and the test-name header, while the server is started for exactly the instance's protocol, HTTP version and TLS/client-certificate mode, without modifying the test case definition.",
+   note="The --max-servers bound, server lifetimes, termination of run() and goroutine interleavings between batches (semaphores, goroutines, OS processes) are not encodable and outside the claim; the order filter-then-mark inside run() is read off the source.",
+   ref="7 (C05)"),
+ "C07": dict(
+   text="Bounded model checking of newTestCaseLibrary / expandSuite / expandCases / groupTestCases (real SSA): for one suite with symbolic directives (each relevant list empty or one entry, TLS / client-cert / GET / receive-limit reliance, Connect version mode, suite mode vs run mode), one test case of symbolic stream type and one symbolic config case: a permutation exists iff the specification admits it, misconfigured suites are rejected, the request carries the case's version, protocol, codec, compression and TLS markers with a default service and method, and it is grouped under exactly one matching server instance.",
+   note="The 'all values' enum lists are bounded to two values per axis (natively too); literal spelling and uniqueness of names across several config cases, several suites/test cases and Go map iteration order are outside the claim.",
+   ref="7 (C07)"),
+ "C11": dict(
+   text="Bounded model checking of runTestCasesForServer over the fault matrix (batch of 2): start error, stdin write/close error, response read error, missing certificate under TLS, server exit before send k, and per send a client that refuses, answers (response / error result / callback error / neither) or answers later (while the runner waits, or never): every case ends with exactly one classified outcome (setup error vs own verdict), all outcomes are present when the function returns on the non-crash paths, the server is asked to stop; reference-server stderr lines are attributed to the named case (also the unterminated last line, also messages containing ': ') and everything else is passed through; x-expect-* headers are added.",
+   note="Sequentialised schedules (the client delivers outstanding answers while the runner waits in WaitGroup.Wait); OS processes, real pipes and timing are outside; delimited I/O and bufio are stubbed in the engine and real natively.",
+   ref="7 (C11)"),
+ "C15": dict(
+   text="Transparency and frame reassembly: tracingHTTP2Conn.Read/Write/Close return exactly the wrapped connection's (n, err) and bytes for every n, nil/error/timeout, client and server side; http2FrameTracer.trace cuts a stream of 2 frames (declared payload 0..3, case split) delivered in any 3 chunks (case split, enumerated completely) into frames: after every chunk the buffered header bytes, declared length and bytes seen equal the reference cut and one frame is emitted per complete frame; flags, stream ids and payloads symbolic.",
+   note="HPACK, http2.Framer and the attribution of frames to streams (handleFrame, GOAWAY, retry collector) are third-party or timer-driven and outside the claim; request direction (client preface) not covered.",
+   ref="7 (C15)"),
+ "C20": dict(
+   text="Wrapper-state clause for the pooled zstd decompressor: every history of 4 operations from {Reset(input 1), Reset(input 2), Read, Close}: a closed library decoder is never used again, Reset after Close yields a usable instance that decodes the new input, Read decodes the input of the last Reset, Read without input yields nothing.",
+   note="The compression algorithms are third-party loops (the family's weak target): the library decoder is a contract stub in the engine and the real klauspost/zstd natively; round trips, malformed input and the other five wrappers are outside the claim.",
+   ref="7 (C20)"),
  "C13": dict(
    text="Bounded model checking of the non-JSON wire examiners: checkGRPCStatus accepts grpc-status 1..16 with grpc-message = PercentEncodeMessage(m) for every byte string m of length <=3 and flags raw non-printable bytes and dangling escapes; the field-name / field-value validators equal the RFC 7230 tables for every string of length <=2; examineGRPCEndStream never panics on any string of length <=5 over {a, A, colon, space, CR, LF} (line structure case-split, bytes symbolic), gives no feedback and the right map for a well-formed line, and flags each named malformation.",
    note="Connect JSON examiners (encoding/json), grpc-status-details-bin (base64 + protobuf) and examineWireDetails (needs trace structures) are outside the claim; std-lib string helpers are bounded Go models.",
